@@ -655,7 +655,7 @@ Definition run_redeem (so : sigops) (c : ctx) (saved : list bytes) (s : st) (acc
                    match run_ops so c ops 0 s' (snap s' :: acc) with
                    | (SErr, acc') => (VErr, rev acc')
                    | (SPanic, acc') => (VPanic, rev acc')
-                   | (SReturn s2, acc') => finish c (ds s2) (snap (shift_script s2 []) :: acc')
+                   | (SReturn s2, acc') => finish c (ds s2) (snap (shift_script (set_als s2 []) []) :: acc')
                    | (SEnd s2, acc') =>
                        match end_script s2 with
                        | None => (VErr, rev acc')
@@ -672,7 +672,7 @@ Definition run_lock (so : sigops) (c : ctx) (bip16 : bool) (saved : list bytes) 
   match run_ops so c lock 0 s acc with
   | (SErr, acc') => (VErr, rev acc')
   | (SPanic, acc') => (VPanic, rev acc')
-  | (SReturn s2, acc') => finish c (ds s2) (snap (shift_script s2 []) :: acc')
+  | (SReturn s2, acc') => finish c (ds s2) (snap (shift_script (set_als s2 []) []) :: acc')
   | (SEnd s2, acc') =>
       match end_script s2 with
       | None => (VErr, rev acc')
@@ -695,10 +695,10 @@ Definition execute (so : sigops) (c : ctx) (bip16 : bool) (unlock lock : list po
       | (SErr, acc) => (VErr, rev acc)
       | (SPanic, acc) => (VPanic, rev acc)
       | (SReturn s1, acc) =>
-          (* early return: shiftScript only; no alt-stack reset, no P2SH bookkeeping, no zero-length skip *)
-          let s2 := shift_script s1 lock in
+          (* early return: the alt stack is dropped, then shiftScript; no P2SH bookkeeping (post-genesis only) *)
+          let s2 := shift_script (set_als s1 []) lock in
           match lock with
-          | [] => (VErr, rev (snap s2 :: acc))                    (* next Step: invalid program counter *)
+          | [] => finish c (ds s2) (snap s2 :: acc)               (* zero-length locking script is skipped *)
           | _ => run_lock so c bip16 [] lock s2 (snap s2 :: acc)
           end
       | (SEnd s1, acc) =>
